@@ -365,7 +365,7 @@ func (t vpC21Target) url(id int) string {
 }
 
 type vpC21Hop struct {
-	form   int // 0 absolute, 1 scheme-relative, 2 host-relative
+	form   int // 0 absolute, 1 scheme-relative, 2 host-relative, 3-6 path-relative (no leading slash, ./, ../, query only)
 	target vpC21Target
 	status int
 	close  bool
@@ -444,7 +444,7 @@ func vpC21GenCase(t *rapid.T) *vpC21Case {
 		if o.follows() {
 			nh := rapid.SampledFrom([]int{0, 1, 1, 2, 3}).Draw(t, "nhops")
 			for j := 0; j < nh; j++ {
-				h := vpC21Hop{form: rapid.SampledFrom([]int{0, 0, 0, 1, 2}).Draw(t, "hopform")}
+				h := vpC21Hop{form: rapid.SampledFrom([]int{0, 0, 0, 1, 2, 3, 3, 4, 5, 6}).Draw(t, "hopform")}
 				h.target = vpC21GenTarget(t, "hop")
 				if rapid.Bool().Draw(t, "hopSameHost") {
 					h.target.host = o.target.host
@@ -481,6 +481,7 @@ func (c *vpC21Case) String() string {
 type vpC21Stats struct {
 	bothSchemesSameName bool
 	crossSchemeRedirect bool
+	relativePathRedirect bool
 	refusals            int
 	tlsReqs, plainReqs  int
 	reused              int
@@ -564,9 +565,17 @@ func vpC21Exec(c *vpC21Case) (string, vpC21Stats) {
 			case 1:
 				eff = vpC21Target{scheme: cur.scheme, host: h.target.host, port: h.target.port}
 				loc = "//" + h.target.host + h.target.port + "/r" + strconv.Itoa(nid)
-			default:
+			case 2:
 				eff = cur
 				loc = "/r" + strconv.Itoa(nid)
+			default:
+				// a reference relative to the current path: scheme, host and port stay what they are
+				eff = cur
+				loc = []string{"r", "./r", "../r", "r"}[h.form-3] + strconv.Itoa(nid)
+				if h.form == 6 {
+					loc += "?q=1#frag"
+				}
+				st.relativePathRedirect = true
 			}
 			if eff.https() != cur.https() {
 				st.crossSchemeRedirect = true
@@ -781,6 +790,9 @@ func TestVP_C21_SchemeTransport(t *testing.T) {
 			if st.crossSchemeRedirect {
 				cls += "/cross-scheme-redirect"
 			}
+		}
+		if st.relativePathRedirect {
+			vpExtra("c21_cases_with_path_relative_redirect", 1)
 		}
 		vpCase(cls, nontrivial, c.String(), func() string {
 			return fmt.Sprintf("%s => tls=%d plain=%d refusals=%d reused=%d", c.String(), st.tlsReqs, st.plainReqs, st.refusals, st.reused)
